@@ -182,7 +182,12 @@ def sweep(run, tier, rng, work):
         try:
             s, problems = hooked_run(run, dict(cfg), seed, what, outdir=outdir)
         except Exception as e:
-            run.fail("clustered-run-raises", f"run raised {type(e).__name__}: {e}", **what)
+            import traceback
+            tb = traceback.format_exc()
+            if type(e).__name__ == "LinAlgError" and "fit_mvstud" in tb and "from_particles" in tb:
+                run.fail("single-point-cluster-singular-scale", f"a real run aborted in ModeStatistics.from_particles: {type(e).__name__}: {e}", **what)
+            else:
+                run.fail("clustered-run-raises", f"run raised {type(e).__name__}: {e}", **what)
             continue
         for p in problems[:2]:
             key = "assignment-without-mode" if "refers to no mode" in p else ("label-rank-mismatch" if "indexed by rank" in p else
@@ -366,7 +371,7 @@ def main(tier, seed):
     try:
         translate()
         run.obligation("translate:Trainer cadence + mode indexing", True)
-    except TranslateError as e:
+    except Exception as e:  # fail closed: anything the translator cannot digest
         run.obligation("translate:Trainer cadence + mode indexing", False, str(e))
     run.prove("Props/C14.v", link_rels=["Link/Cluster.v"])
     work = Path(tempfile.mkdtemp(prefix="c14_", dir=run.scratch.dir))
